@@ -323,7 +323,18 @@ func (g *gen) genError(typs []types.Type) error {
 		p.P("return %s, err", strings.Join(zeros, ", "))
 		p.Out()
 		p.P("}")
-		p.P("return f()")
+		// What f returns next to an error is not passed on: the other results of a failed join are zero values.
+		vars := make([]string, len(outTyps))
+		for i := range vars {
+			vars[i] = fmt.Sprintf("v%d", i)
+		}
+		p.P("%s, err := f()", strings.Join(vars, ", "))
+		p.P("if err != nil {")
+		p.In()
+		p.P("return %s, err", strings.Join(zeros, ", "))
+		p.Out()
+		p.P("}")
+		p.P("return %s, nil", strings.Join(vars, ", "))
 		p.Out()
 		p.P("}")
 	}
